@@ -108,7 +108,7 @@ struct Run {
   // observations for labels
   int purges = 0, merges = 0, merge_purges = 0, merges_of_purged = 0, merges_diff = 0, roundtrips = 0, roundtrips_purged = 0,
       ghosts = 0, zero_w = 0, neg_refused = 0, thr_below = 0, nfn_excused = 0, eps_checked = 0, eps_weakened = 0, grown = 0,
-      capped = 0, nfp_nonempty = 0, untracked_true = 0;
+      capped = 0, nfp_nonempty = 0, untracked_true = 0, self_merges = 0;
   uint64_t fi_queries = 0;
 
   // weight scale of the case: every weight is (integer units) * wmul. 2^33 puts single weights and counters above 2^32; 0.25 (double
@@ -363,7 +363,11 @@ struct Run {
     std::unique_ptr<Sk> tmp;
     Sk* src = S.sk.get();
     const bool own = (d != sidx && mode != 2);
-    if (!own) { tmp.reset(new Sk(*S.sk)); src = tmp.get(); }   // merge with a copy (also the only sound way to merge a sketch with itself)
+    // a sketch merged with ITSELF through the const& overload (doubles the stream: every existing key is adjusted in place, nothing is
+    // inserted, so the map is not restructured while it is iterated); the rvalue overload and mode 2 use a copy
+    const bool self = (d == sidx && mode == 0);
+    if (self) self_merges++;
+    if (!own && !self) { tmp.reset(new Sk(*S.sk)); src = tmp.get(); }
     const bool ghost = src->get_num_active_items() == 0 && S.total > 0;
     if (ghost) ghosts++;
     const W dme = D.sk->get_maximum_error(), sme = src->get_maximum_error();
@@ -520,6 +524,7 @@ void run_typed(const Case& cs, bool large) {
   if (r.purges >= 5) vf::label("purges>=5");
   if (r.merges) vf::label("merge");
   if (r.merge_purges) vf::label("purge-during-merge");
+  if (r.self_merges) vf::label("self-merge");
   if (r.merges_of_purged) vf::label("merge-of-purged-source");
   if (r.merges_diff) vf::label("merge-different-sizes");
   if (r.roundtrips) vf::label("roundtrip");
